@@ -340,6 +340,24 @@ def run_property(prop, contract_module, tier='quick', seed=0, procs=None, extra_
     led = load_ledger().get(prop)
     if led:
         missing = [n for n in led if n not in records]
+    # bounded stand-in for obligations that are no longer generated (the function left the verifier's reach, e.g. a loop rewritten as a
+    # regular expression): the native behavioural replay of the obligation (STANDIN_REPLAY of the contract module, by name prefix; else the
+    # property's battery) is run without a model. A failing input found on the real code is a VIOLATION (labelled bounded stand-in); when
+    # none is found the obligation stays UNDECIDED. Nothing is ever counted as proved by this route.
+    if missing:
+        table = list(getattr(mod, 'STANDIN_REPLAY', []))
+        specs = []
+        for n in missing:
+            spec = next((sp for pre, sp in table if n.startswith(pre)), FALLBACK_REPLAY.get(prop))
+            if spec and not any(sp == spec for _, sp in specs):
+                specs.append((n, spec))
+        for n, spec in specs[:6]:
+            idx += 1
+            f = dict(name=n, kind='standin', status='not-generated', model=None, task='ledger', replay=dict(spec),
+                     note='obligation of the pinned tree is no longer generated (contract does not attach); bounded stand-in: native replay without a model')
+            path, confirmed, detail = replay_failure(prop, idx, f)
+            if confirmed:
+                violations.append(dict(f=f, path=path, confirmed=True, detail=detail, count=1, known=None))
     if rc == 0 and (unsupported or undecided or missing):
         rc = 2
     for n in missing[:20]:
